@@ -58,7 +58,7 @@ def prop(pid, **kw):
 
 
 prop("C01",
-     scripts=lambda tier, rnd: S.basic() + S.collision() + S.stop_points() + S.reaction_table() + S.gated() +
+     scripts=lambda tier, rnd: S.basic() + S.collision() + S.stop_points() + S.reaction_table() + S.gated() + S.api_races() +
      sample(S.pacing(), rnd, 200 if tier == "thorough" else 30) + S.collision_racy(rnd, 60 if tier == "thorough" else 10) +
      (S.damping() + S.writers() + S.registry(rnd, 120) if tier == "thorough" else sample(S.damping(), rnd, 10)),
      mc=lambda tier: [mc_pair(["openLo", "ka"])] if tier == "quick" else
@@ -81,7 +81,8 @@ prop("C07",
           "accepted (two OnOpenMessage callbacks)")
 
 prop("C09",
-     scripts=lambda tier, rnd: S.reaction_table() + (S.notif_values(rnd, 200 if tier == "thorough" else 30)),
+     scripts=lambda tier, rnd: S.reaction_table() + (S.notif_values(rnd, 200 if tier == "thorough" else 30)) +
+     sample(S.trailing(), rnd, 176 if tier == "thorough" else 30) + sample(S.pacing(), rnd, 60 if tier == "thorough" else 15),
      mc=lambda tier: [mc_pair(["openLo", "ka", "upd"], conns=1, msgs=3)] if tier == "quick" else
      [mc_pair(["openLo", "ka", "upd", "cease", "notif", "fault", "openBad"], conns=1, msgs=3, dials=2),
       mc_pair(["openLo", "ka", "upd", "notif"], conns=2, msgs=2, dials=1)],
@@ -90,7 +91,7 @@ prop("C09",
           "probe; non-trivial = the script reached the cell's state and delivered the message")
 
 prop("C10",
-     scripts=lambda tier, rnd: S.stop_points() + S.gated() + S.stop_dial_race(12 if tier == "thorough" else 3) +
+     scripts=lambda tier, rnd: S.stop_points() + S.gated() + S.api_races() + S.stop_dial_race(12 if tier == "thorough" else 3) +
      S.stop_everywhere(rnd, 400 if tier == "thorough" else 60),
      mc=lambda tier: [mc_pair(["openLo", "ka"])] if tier == "quick" else
      [mc_pair(["openLo", "ka", "upd"], dials=2), mc_pair(["openHi", "ka", "notif"], dials=2)],
@@ -142,7 +143,7 @@ prop("C03",
           "points, random, several stimuli) x handler replies; non-trivial = at least one UPDATE reached the handler")
 
 prop("C08",
-     scripts=lambda tier, rnd: S.headers(rnd) if tier == "quick" else
+     scripts=lambda tier, rnd: S.headers(rnd) + sample(S.trailing(), rnd, 30) if tier == "quick" else S.trailing() +
      S.headers(rnd) + S.headers(rnd, lengths=sorted(set(rnd.randrange(65536) for _ in range(150))),
                                 types=list(range(0, 256, 5))),
      mc=lambda tier: [mc_pair(["openLo", "ka", "fault"], conns=1, msgs=3)],
@@ -177,7 +178,7 @@ prop("C13",
 
 prop("C20",
      pure=["registry"],
-     scripts=lambda tier, rnd: S.registry(rnd, 60 if tier == "quick" else 600),
+     scripts=lambda tier, rnd: S.registry(rnd, 60 if tier == "quick" else 600) + S.api_races(),
      mc=lambda tier: [mc_pair(["openLo", "ka"], conns=1, msgs=2)],
      nontrivial=lambda s, r: sum(1 for e in syscheck.events_of(r) if e["e"] == "ret") >= 3,
      rule="random registry operation sequences (AddPeer/DeletePeer/GetPeer/ListPeers/Serve/Close, inbound handshakes) before, "
@@ -186,7 +187,7 @@ prop("C20",
 prop("C05",
      pure=["big", "deframe", "prefix"],
      scripts=lambda tier, rnd: S.fuzz(rnd, 400 if tier == "thorough" else 50) + S.message_grid(rnd, 300 if tier == "thorough" else 60) +
-     S.notif_values(rnd, 120 if tier == "thorough" else 25),
+     S.notif_values(rnd, 120 if tier == "thorough" else 25) + (S.trailing() if tier == "thorough" else sample(S.trailing(), rnd, 60)),
      mc=lambda tier: [mc_pair(["openLo", "ka", "fault", "notif"], conns=2, msgs=2)],
      nontrivial=lambda s, r: True,
      end_oracles={"leak", "unclosed"},
